@@ -12,6 +12,8 @@ def run(i):
     r = subprocess.run([os.path.join(V, 'tools/try_mutant.sh'), os.path.join(V, 'seeded', i, 'patch.diff'), prop, 'quick'], capture_output=True, text=True, errors='replace')
     out = r.stdout
     sites = sorted(set(re.findall(r'^  (\w[\w-]*) entry=(.*?) site=(.*?) x\d+', out, re.M)))
+    if 'verdict=' not in out and 'VIOLATION' not in out and 'INCONCLUSIVE' not in out and 'PATCH DOES NOT APPLY' not in out:
+        out = 'INCONCLUSIVE (the check did not run: scratch worktree could not be set up)'  # never count a run that did not happen as a miss
     verdict = 'detected' if 'VIOLATION' in out else ('patch-does-not-apply' if 'PATCH DOES NOT APPLY' in out else ('inconclusive' if 'INCONCLUSIVE' in out else 'missed'))
     meta['detected_by'] = {'check': f'./check {prop} quick', 'verdict': verdict, 'rules': [f'{k}:{e}:{s}' for k, e, s in sites][:8],
                            'repo_commit': subprocess.run(['git', '-C', '/repo', 'rev-parse', '--short', 'HEAD'], capture_output=True, text=True).stdout.strip()}
